@@ -68,7 +68,9 @@ def rand_title_text(rng, p=0.2):
                              "[not markup]"]),
             "justify": rng.choice([None, None, "left", "center", "right", "full"]),
             "overflow": rng.choice([None, None, "fold", "crop", "ellipsis", "ignore"]),
-            "style": rng.choice([None, "bold", "on red"])}
+            "style": rng.choice([None, "bold", "on red"]),
+            # (tab_size=None is documented: "use the console's tab size")
+            "tab_size": rng.choice([8, 8, None, 4, 1])}
 
 
 def build_title(spec):
@@ -76,7 +78,8 @@ def build_title(spec):
     if not tt:
         return spec["title"]
     from rich.text import Text
-    return Text(tt["s"], justify=tt["justify"], overflow=tt["overflow"], style=tt["style"] or "")
+    return Text(tt["s"], justify=tt["justify"], overflow=tt["overflow"], style=tt["style"] or "",
+                tab_size=tt.get("tab_size", 8))
 
 
 def title_plain(spec):
@@ -343,7 +346,7 @@ def build(spec):
     if k == "text":
         from rich.text import Text
         return Text(spec["s"], style=spec.get("style") or "", justify=spec.get("justify"),
-                    overflow=spec.get("overflow"), no_wrap=spec.get("no_wrap"))
+                    overflow=spec.get("overflow"), no_wrap=spec.get("no_wrap"), tab_size=spec.get("tab_size", 8))
     if k == "rule":
         from rich.rule import Rule
         return Rule(spec["title"], characters=spec["characters"], align=spec["align"], **spec.get("decor", {}))
